@@ -287,7 +287,7 @@ def r09_5_origin(chk):
 
 
 def r09_6_no_memo(chk):
-    names = ("FileHeaderItem", "FileHeaderSet", "OriginItem", "OriginSet", "EFLRSet", "StorageUnitLabel")
+    names = ("FileHeaderItem", "FileHeaderSet", "OriginItem", "OriginSet", "EFLRSet")
     memos = [m for m in memo_sites(chk.ix) if m.func.cls is not None and any(c.name in names for c in m.func.cls.mro()
                                                                             if c.name != "EFLRItem")
              and m.func.name != "obname"]
